@@ -135,8 +135,24 @@ class ExprMixin(EngineCore):
     def ev_Dict(self, e, st, ctx):
         if not e.keys:
             return [(st, st.alloc(ObjMeta("dict", None, "dict"), {"items": ()}))]
-        # dict displays are only used for error_info / extra attributes: opaque
-        return [(st, smt.fresh("dict", smt.Obj))]
+        # dict displays are only used for error_info / extra attributes: the dict itself is opaque, but attribute reads on a
+        # local name among its values are evaluated - `{"document": exc.doc}` crashes when `exc` has no such attribute
+        states = [st]
+        for val in e.values:
+            if isinstance(val, ast.Attribute) and isinstance(val.value, ast.Name):
+                nxt = []
+                for s in states:
+                    try:
+                        res = self.eval_expr(val, s, ctx)
+                    except EngineError:
+                        nxt.append(s)
+                        continue
+                    for s2, v in res:
+                        if isinstance(v, Raise):
+                            return [(s2, v)] + [(x, smt.fresh("dict", smt.Obj)) for x in nxt]
+                        nxt.append(s2)
+                states = nxt
+        return [(s, smt.fresh("dict", smt.Obj)) for s in states]
 
     def ev_UnaryOp(self, e, st, ctx):
         out = []
@@ -205,6 +221,13 @@ class ExprMixin(EngineCore):
             # evaluate all operands; combine symbolically (only valid where the result is used as a truth value
             # or all operands are Bool; checked below)
             out = []
+            # trial evaluation of all operands on a copy: an operand that raises (or forks the state) may be one that Python's
+            # short-circuit evaluation never reaches - then the lazy, forking evaluation decides
+            n_ob = len(self.obligations)
+            trial = self.eval_seq(e.values, st.clone(), ctx)
+            del self.obligations[n_ob:]  # obligations of the trial run are regenerated by the real one
+            if len(trial) != 1 or isinstance(trial[0][1], Raise):
+                return self.boolop_fork(e, st, ctx)
             for s, vals in self.eval_seq(e.values, st, ctx):
                 if isinstance(vals, Raise):
                     out.append((s, vals))
@@ -449,7 +472,7 @@ class ExprMixin(EngineCore):
             if attr in d:
                 return [(st, d[attr])]
             if meta.kind == "exc" and isinstance(meta.cls, PyClass):
-                return [(st, self.pyexc_attr(st, v, attr))]
+                return self.pyexc_attr_outcomes(st, v, attr)
             if meta.kind in ("object", "exc", "ghost") and isinstance(meta.cls, ClassVal):
                 ci = meta.cls.ci
                 fi = self.P.find_method(ci, attr)
@@ -528,6 +551,49 @@ class ExprMixin(EngineCore):
         if is_z3(v) and v.sort() == smt.Obj:
             return [(st, BoundMethod(v, "obj." + attr))]
         raise EngineError(f"{ctx.func.key()}:{line}: attribute {attr} of {v!r}")
+
+    # instance attributes that Python-level exception classes of the standard library set in __init__ (not visible on the class)
+    PY_EXC_INSTANCE_ATTRS = {"JSONDecodeError": ("msg", "doc", "pos", "lineno", "colno")}
+
+    def pyexc_has_attr(self, cls: Any, attr: str) -> bool:
+        if not isinstance(cls, PyClass):
+            return True  # repository classes: resolved through their own class body / stored fields
+        if hasattr(cls.cls, attr):
+            return True
+        return any(attr in self.PY_EXC_INSTANCE_ATTRS.get(k.__name__, ()) for k in cls.cls.__mro__)
+
+    def pyexc_attr_outcomes(self, st: State, v: Ref, attr: str) -> list:
+        """Attribute of an exception object of a built-in / stdlib class: AttributeError when the (candidate) class has no such
+        attribute - `exc.doc` on a plain ValueError is a crash of the handler, not an opaque value."""
+        d = st.heap[v.oid]
+        if attr in d:
+            return [(st, d[attr])]
+        cs = self.exc_classes(st, v)
+        have = tuple(c for c in cs if self.pyexc_has_attr(c, attr))
+        out = []
+        if len(have) == len(cs):
+            parts = [(st, True)]
+        elif not have:
+            parts = [(st, False)]
+        else:
+            parts = []
+            s2 = st.clone()
+            st.heap[v.oid]["$clsset"] = have
+            s2.heap[v.oid]["$clsset"] = tuple(c for c in cs if c not in have)
+            kv = st.heap[v.oid].get("$clsvar")
+            if kv is not None:
+                st.assume(z3.Or([kv == self.cls_gid(c) for c in have]))
+                s2.assume(z3.Or([kv == self.cls_gid(c) for c in s2.heap[v.oid]["$clsset"]]))
+            parts = [(st, True), (s2, False)]
+        for s, ok in parts:
+            if ok:
+                try:
+                    out.append((s, self.pyexc_attr(s, v, attr)))
+                except EngineError:
+                    out.append((s, smt.fresh("exc_" + attr, smt.Obj)))  # exists, value not modelled: opaque
+            else:
+                out.append((s, self.raise_py(s, AttributeError, f"exception object has no attribute {attr}")))
+        return out
 
     def pyexc_attr(self, st: State, v: Ref, attr: str) -> Any:
         d = st.heap[v.oid]
